@@ -49,6 +49,9 @@ struct CtlState {
     events_issued: usize,
     events_total: usize,
     quiescent_epoch: u64,
+    /// a handler was woken while the task thread was parked at an executor-level choice: its
+    /// option list is stale and must be recomputed
+    recompute: bool,
 }
 
 struct Ctl {
@@ -75,6 +78,7 @@ fn ctl() -> &'static Ctl {
             events_issued: 0,
             events_total: 0,
             quiescent_epoch: 0,
+            recompute: false,
         }),
         cv: Condvar::new(),
         state: OnceLock::new(),
@@ -150,6 +154,10 @@ impl Wake for HandlerWaker {
         // future's waker may still be invoked late; it must not leave T marked Running forever).
         let alive = g.alive.get(self.0).copied().unwrap_or(false);
         if alive && g.status[T] == Status::Idle {
+            g.status[T] = Status::Running;
+        } else if alive && matches!(g.status[T], Status::ExecChoice { .. }) {
+            // parked at an executor-level choice computed before this wake: recompute it
+            g.recompute = true;
             g.status[T] = Status::Running;
         }
         c.cv.notify_all();
@@ -234,8 +242,14 @@ fn task_thread(state: Arc<ServerState>, labels: Vec<String>, mut factory: EventF
             }
             g.status[T] = Status::ExecChoice { options: options.iter().map(|o| o.0.clone()).collect() };
             c.cv.notify_all();
+            let mut stale = false;
             let k = loop {
                 if !g.active || g.stop {
+                    break None;
+                }
+                if g.recompute {
+                    g.recompute = false;
+                    stale = true;
                     break None;
                 }
                 if let Some(k) = g.grant[T].take() {
@@ -244,6 +258,13 @@ fn task_thread(state: Arc<ServerState>, labels: Vec<String>, mut factory: EventF
                 g = c.cv.wait(g).unwrap();
             };
             g.status[T] = Status::Running;
+            if stale {
+                // wait until the worker has finished the step that woke us, then start over
+                while !g.stop && matches!(g.status[W], Status::Running) {
+                    g = c.cv.wait(g).unwrap();
+                }
+                continue;
+            }
             match k {
                 Some(k) => {
                     let seq = g.trace.len();
